@@ -32,7 +32,7 @@ BASE = dict(N=2, PR=2, MinStake=2, MaxVals=1, UnstakeTime=1, Window=2, MinSigned
             JailDur=1, MaxEvAge=1, FracDen=4, FracDS=2, FracDT=1, Fee=1, GenBal=(9, 9), GenVals=set(),
             DaoTokens=3, Dev=set(), Amts={2, 4}, Dts={1}, BurnNums={2}, MaxHeight=3, MaxTx=2, MaxExt=0,
             EvOn=False, MissOn=False, BadTxOn=False, Kinds={"stake", "unstake"}, SendTos={1}, Props={1},
-            AwardTos={1}, EvPowers={1}, EvUnknown=False)
+            AwardTos={1}, EvPowers={1}, EvUnknown=False, MaxRO=0)
 
 
 def cfg(**over):
@@ -78,7 +78,8 @@ PROFILES = {
                     AwardTos={1, 2, 4, 5}, BurnNums={1, 2, 4}, Props={0, 1, 2}, MaxHeight=6, MaxTx=3, EvOn=True, MissOn=True, BadTxOn=True, EvPowers={1, 2, 9})],
     },
     "C04": {
-        "mc": [cfg(N=2, Kinds=ALLK, SendTos={4}, Amts={2, 4}, MaxExt=1, AwardTos={1}, BurnNums={1, 4}, MaxHeight=3, MaxTx=2, EvOn=True, EvPowers={1})],
+        "mc": [cfg(N=2, Kinds={"stake", "unstake", "send"}, SendTos={4}, Amts={2}, MaxExt=1, AwardTos={1}, BurnNums={4}, MaxHeight=3, MaxTx=2, EvOn=True, EvPowers={1})],
+        "mcT": [cfg(N=2, Kinds=ALLK, SendTos={4}, Amts={2, 4}, MaxExt=1, AwardTos={1}, BurnNums={1, 4}, MaxHeight=3, MaxTx=2, EvOn=True, EvPowers={1})],
         "sim": [cfg(N=3, GenBal=(9, 9, 9), GenVals=gv((1, 4), (2, 2)), MaxVals=2, UnstakeTime=2, Kinds=ALLK, SendTos={1, 5}, Amts={1, 2, 3, 4}, MaxExt=2,
                     AwardTos={1, 2, 5}, BurnNums={1, 2, 4}, Props={0, 1, 2}, MaxHeight=7, MaxTx=3, EvOn=True, MissOn=True, EvPowers={1, 2, 9})],
     },
@@ -91,7 +92,8 @@ PROFILES = {
     },
     "C06": {
         "mc": [cfg(N=2, MaxVals=2, UnstakeTime=1, Amts={1, 2, 9}, Kinds={"stake", "unstake", "unjail"}, MaxHeight=4, MaxTx=2, Dts={0, 1}, EvOn=True, EvPowers={1}),
-               cfg(N=3, GenBal=(9, 9, 9), MaxVals=3, UnstakeTime=2, Amts={2}, Kinds={"stake", "unstake"}, MaxHeight=4, MaxTx=3, Dts={1, 2})],
+               cfg(N=3, GenBal=(9, 9, 9), MaxVals=3, UnstakeTime=2, Amts={2}, Kinds={"stake", "unstake"}, MaxHeight=3, MaxTx=3, Dts={1, 2})],
+        "mcT": [cfg(N=3, GenBal=(9, 9, 9), MaxVals=3, UnstakeTime=2, Amts={2}, Kinds={"stake", "unstake"}, MaxHeight=4, MaxTx=3, Dts={1, 2})],
         "sim": [cfg(N=3, GenBal=(9, 9, 3), GenVals=gv((1, 2)), MaxVals=2, UnstakeTime=2, Amts={1, 2, 3, 9}, Kinds={"stake", "unstake", "unjail"}, MaxHeight=9, MaxTx=3, Dts={0, 1, 2},
                     EvOn=True, MissOn=True, EvPowers={1, 2}, MaxExt=1, BurnNums={1, 2, 4}),
                 cfg(N=4, GenBal=(9, 9, 9, 9), MaxVals=4, UnstakeTime=1, Amts={2, 4}, Kinds={"stake", "unstake"}, MaxHeight=7, MaxTx=4, Dts={0, 1, 3})],
@@ -119,20 +121,22 @@ PROFILES = {
                     Window=2, MinSignedNum=1, MinSignedDen=2, MaxHeight=10, JailDur=2, Dts={0, 1, 2, 3}, FracDen=8, FracDT=1, FracDS=2)],
     },
     "C10": {
-        "mc": [cfg(N=2, Kinds={"stake", "send", "unstake"}, SendTos={2}, Amts={2}, MaxExt=2, AwardTos={1, 2, 5}, Props={0, 1, 2}, MaxHeight=3, MaxTx=2, UnstakeTime=0, BurnNums=set())],
+        "mc": [cfg(N=2, Kinds={"stake", "send", "unstake"}, SendTos={2}, Amts={2}, MaxExt=2, AwardTos={1, 5}, Props={0, 1}, MaxHeight=3, MaxTx=2, UnstakeTime=0, BurnNums=set())],
+        "mcT": [cfg(N=2, Kinds={"stake", "send", "unstake"}, SendTos={2}, Amts={2}, MaxExt=2, AwardTos={1, 2, 5}, Props={0, 1, 2}, MaxHeight=3, MaxTx=2, UnstakeTime=0, BurnNums=set())],
         "sim": [cfg(N=3, GenBal=(9, 9, 9), GenVals=gv((1, 4)), MaxVals=2, Kinds=ALLK, SendTos={1, 2}, Amts={1, 2, 3}, MaxExt=3, AwardTos={1, 2, 3, 4, 5, 6, 7}, Props={0, 1, 2, 3}, MaxHeight=7, MaxTx=3,
                     UnstakeTime=0, BurnNums={1}, Fee=2)],
     },
     "C11": {
-        "mc": [cfg(N=2, Kinds=ALLK, SendTos={2}, Amts={2, 9}, MaxHeight=2, MaxTx=2, BadTxOn=True, GenVals=gv((1, 4)))],
+        "mc": [cfg(N=2, Kinds=ALLK, SendTos={2}, Amts={2, 9}, MaxHeight=2, MaxTx=2, BadTxOn=True, GenVals=gv((1, 4)), MaxRO=1)],
         "sim": [cfg(N=3, GenBal=(9, 2, 0), GenVals=gv((1, 4)), MaxVals=2, Kinds=ALLK, SendTos={1, 2, 3}, Amts={0, 1, 2, 9}, MaxHeight=5, MaxTx=5, BadTxOn=True, MissOn=True, Window=1, MinSignedNum=1, MinSignedDen=1,
-                    Fee=2)],
+                    Fee=2, MaxRO=3),
+                cfg(N=2, GenBal=(9, 9), GenVals=gv((1, 4)), MaxVals=2, Kinds=ALLK, SendTos={1, 2, 4}, Amts={2, 4}, MaxHeight=5, MaxTx=3, BadTxOn=True, Fee=1, MaxRO=2, UnstakeTime=0)],
     },
 }
 
 SIZES = {  # (sim traces per worker, depth, OneIn, sim timeout s, mc timeout s)
-    "quick": dict(num=40, depth=40, onein=12, simt=60, mct=150),
-    "thorough": dict(num=400, depth=60, onein=12, simt=420, mct=900),
+    "quick": dict(num=40, depth=40, onein=12, simt=60, mct=150, maxbeh=1500),
+    "thorough": dict(num=400, depth=60, onein=12, simt=420, mct=1500, maxbeh=15000),
 }
 
 
@@ -197,12 +201,7 @@ def validate(c, tr, d, label, dev=None):
     res = common.run_tlc("TR_" + label, "TR_%s.cfg" % label, d, timeout=3000, files=files, workers=1)
     if res.error or res.rc != 0:
         raise common.ToolError("trace validation %s failed to run to the end of the trace: %s\n%s" % (label, res.error, res.out[-3000:]))
-    divs = []
-    for ln in res.out.splitlines():
-        m = DIV.match(ln)
-        if m:
-            fs = lambda s: {x.strip().strip('"') for x in s.split(",") if x.strip()}
-            divs.append({"line": int(m.group(1)), "beh": int(m.group(2)), "div": fs(m.group(3)), "bad": fs(m.group(4)), "note": m.group(5)})
+    divs = common.parse_div(res.out)
     return res, divs
 
 
@@ -248,7 +247,7 @@ def run(prop, tier, seed):
     actcount, rescount = {}, {}
     with common.Scratch() as d:
         # 1. the design: exhaustive on small constants, Dev = {}
-        for i, c in enumerate(prof["mc"]):
+        for i, c in enumerate(prof["mc"] + (prof.get("mcT", []) if tier == "thorough" else [])):
             files = tlagen.model("MC%d" % i, "Posmint", c, invariants=INVS[prop])
             res = common.run_tlc("MC%d" % i, "MC%d.cfg" % i, d, timeout=size["mct"], files=files, coverage=(tier == "thorough"))
             common.require_tlc_ok(res, "%s exhaustive cfg %d" % (prop, i))
@@ -259,6 +258,12 @@ def run(prop, tier, seed):
         for i, c in enumerate(picks):
             label = "%s_%d" % (prop, i)
             behs = simulate(c, d, seed * 7919 + i, size, label)
+            if len(behs) < size["maxbeh"] // 3:
+                # little branching at the end of these behaviours: print every candidate instead of a sample
+                more = simulate(c, d, seed * 7919 + i + 1, dict(size, onein=1), label + "b")
+                have = {json.dumps(b) for b in behs}
+                behs += [b for b in more if json.dumps(b) not in have]
+            behs = behs[:size["maxbeh"]]
             if not behs:
                 raise common.ToolError("simulation produced no behaviours")
             tr = run_real(c, behs, d, seed, label)
@@ -281,9 +286,10 @@ def run(prop, tier, seed):
                 for f in dv["div"]:
                     nonconf[f] = nonconf.get(f, 0) + 1
                 for sig, what in attribute(prop, dv, ln):
-                    if sig in seen:
+                    key = (sig, ln["act"]["a"], ln["act"].get("kind", ""), ln["res"]["class"])
+                    if key in seen:
                         continue
-                    seen.add(sig)
+                    seen.add(key)
                     beh = [x["act"] for x in lines if x["b"] == ln["b"] and x["i"] <= ln["i"]]
                     out.violation(sig=sig, what="%s (config %s, behaviour %d, step %d: %s)" % (what, label, ln["b"], ln["i"], json.dumps(ln["act"])),
                                   action=ln["act"]["a"], kind=ln["act"].get("kind", ""), result=ln["res"]["class"],
